@@ -275,6 +275,65 @@ def _goto_cc(entry, out, defines, harness, log):
     return rc == 0, (e or o)[-600:]
 
 
+FP_TYPES = {
+    'signed int (const uscxml_ctx *, const uscxml_state *, const void *)': 'exec',
+    'signed int (const uscxml_ctx *, const uscxml_transition *)': 'enabled',
+    'signed int (const uscxml_ctx *, const uscxml_state *, const uscxml_elem_invoke *, unsigned char)': 'invoke',
+    'signed int (const uscxml_ctx *, const uscxml_transition *, const void *)': 'matched',
+    'signed int (const uscxml_ctx *, const uscxml_state *, const uscxml_elem_donedata *)': 'done',
+    'void * (const uscxml_ctx *)': 'dequeue',
+    'signed int (const uscxml_ctx *, const uscxml_elem_data *)': 'init',
+}
+
+
+def restrict_function_pointers(a, out, ctext, log):
+    """CBMC resolves a call through a function pointer to every address-taken function whose type is compatible
+    MODULO pointer target types, so ctx->is_matched 'may call' every emitted on_entry function and vice versa; dfcc's
+    loop instrumentation inlines all of that transitively (the 29 GB of test388).  The call sites of uscxml_step are
+    restricted to the functions of the right ROLE (emitted handlers of that signature / the harness stub); CBMC keeps an
+    assertion 'pointer must be one of [...]' at every restricted site, so the restriction is checked, not assumed."""
+    roles = {
+        'exec': re.findall(r'static int (\w+)\(const uscxml_ctx\* ctx, const uscxml_state\* state, const void\* event\)', ctext),
+        'enabled': re.findall(r'static int (\w+)\(const uscxml_ctx\* ctx, const uscxml_transition\* transition\)', ctext),
+        'invoke': re.findall(r'static int (\w+)\(const uscxml_ctx\* ctx, const uscxml_state\* s, const uscxml_elem_invoke\* \w+, unsigned char uninvoke\)', ctext) + ['stub_invoke'],
+        'matched': ['stub_is_matched'], 'done': ['stub_raise_done_event'], 'dequeue': ['stub_dequeue_internal', 'stub_dequeue_external'], 'init': ['stub_init'],
+    }
+    restr = {}
+    for k in range(1, 80):
+        name = 'uscxml_step.function_pointer_call.%d' % k
+        rc, o, e, dt = cbmcrun.run(['goto-instrument', '--restrict-function-pointer', name + '/h_glue', a, out + '.probe'], 120, 8)
+        msg = e + o
+        m = re.search(r"points to `([^']*)'", msg)
+        if not m:
+            break
+        role = FP_TYPES.get(m.group(1))
+        if role and roles.get(role):
+            restr[name] = sorted(set(roles[role]))
+    if os.path.exists(out + '.probe'):
+        os.remove(out + '.probe')
+    # call sites inside the emitted functions: ctx-><callback>(...) in textual order -> the harness stub of that callback
+    CB = {'exec_content_log': 'stub_log', 'exec_content_raise': 'stub_raise', 'exec_content_send': 'stub_send',
+          'exec_content_foreach_init': 'stub_foreach_init', 'exec_content_foreach_next': 'stub_foreach_next',
+          'exec_content_foreach_done': 'stub_foreach_done', 'exec_content_assign': 'stub_assign', 'exec_content_init': 'stub_init',
+          'exec_content_cancel': 'stub_cancel', 'exec_content_script': 'stub_script', 'is_true': 'stub_is_true', 'invoke': 'stub_invoke',
+          'is_matched': 'stub_is_matched', 'raise_done_event': 'stub_raise_done_event'}
+    for m in re.finditer(r'^static int (\w+)\([^)]*\) \{\n(.*?)^\}', ctext, re.S | re.M):
+        fn, body = m.group(1), m.group(2)
+        k = 0
+        for c in re.finditer(r'ctx->(\w+)\(', body):
+            k += 1
+            if c.group(1) in CB:
+                restr['%s.function_pointer_call.%d' % (fn, k)] = [CB[c.group(1)]]
+    if not restr:
+        return a, 0
+    rf = out + '.fp.json'
+    json.dump(restr, open(rf, 'w'), indent=1)
+    rc, o, e, dt = cbmcrun.run(['goto-instrument', '--function-pointer-restrictions-file', rf, a, out], 300, 8, log=log)
+    if rc != 0:
+        return a, 0
+    return out, len(restr)
+
+
 def _goto_line_ids(binary, lines_wanted, log):
     ids = loop_ids(binary, 'uscxml_step', log)
     for lid, (f, ln) in ids.items():
@@ -301,6 +360,8 @@ def verify_step(base, wd, harness, defines, l_inv, l_sel, l_goto, l_label, lc, n
     ok, msg = _goto_cc('h_step', a, defines, harness, log)
     if not ok:
         return {'B': _err(base + '.stepB', 'goto-cc: ' + msg)}
+    ctext = open(defines['GENC_FILE'].strip('"'), errors='replace').read()
+    a, nrestr = restrict_function_pointers(a, a + '.r.gb', ctext, log)
     gid, ids = _goto_line_ids(a, goto_lines, log)
     if gid is None:
         return {'B': _err(base + '.stepB', 'loop map out of date: DEQUEUE_EVENT back-edge not among the loops of uscxml_step: %s' % sorted(ids.items()))}
@@ -320,6 +381,7 @@ def verify_step(base, wd, harness, defines, l_inv, l_sel, l_goto, l_label, lc, n
     if not ok:
         out['A'] = _err(base + '.stepA', 'goto-cc: ' + msg)
         return out
+    a2, _ = restrict_function_pointers(a2, a2 + '.r.gb', ctext, log)
     ids = loop_ids(a2, 'uscxml_step', log)
     by_line = {ln: lid for lid, (f, ln) in ids.items()}
     if l_inv not in by_line or l_sel not in by_line:
@@ -371,7 +433,7 @@ def verify_step(base, wd, harness, defines, l_inv, l_sel, l_goto, l_label, lc, n
                      cbmc_flags=['--drop-unused-functions', '--unwind', str(max(K, 40)), '--unwinding-assertions'],
                      timeout=1200, mem_gb=12, meta={'doc': name, 'part': 'G'})
     out['G'] = cbmcrun.verify(jg)
-    for f in (a, b, a2, b2, c2):
+    for f in (a, b, a2, b2, c2, a.replace('.r.gb', ''), a2.replace('.r.gb', ''), a.replace('.r.gb', '') + '.r.gb.fp.json', a2.replace('.r.gb', '') + '.r.gb.fp.json'):
         if os.path.exists(f) and not os.environ.get('VERIF_KEEP'):
             os.remove(f)
     return out
